@@ -30,6 +30,7 @@ import (
 	"strconv"
 	"strings"
 	"sync"
+	"syscall"
 	"time"
 
 	"github.com/jech/galene/token"
@@ -119,7 +120,7 @@ func toRec(s *token.Stateful) rec {
 	if s.Username != nil && len(*s.Username) == 2 && (*s.Username)[0] == 'u' {
 		d := int((*s.Username)[1] - '0')
 		if d >= 0 && d <= 9 && fmt.Sprint(s.Permissions) == fmt.Sprint(perms[d%2]) &&
-			!s.IncludeSubgroups && s.IssuedAt == nil && s.IssuedBy == nil {
+			!s.IncludeSubgroups {
 			r.data = d
 		}
 	}
@@ -216,6 +217,8 @@ type hist struct {
 	revoked map[int]bool
 	writes  int
 	tagID   map[string]int
+	// faultNext arms the I/O fault for the next write of the store
+	faultNext bool
 }
 
 var histCount int
@@ -406,12 +409,53 @@ func (h *hist) condCheck(what string, e string, verBefore int, existed bool, c s
 	}
 }
 
+// withFault runs one call into the server.  When the fault is armed the
+// process cannot allocate a file descriptor during the call (RLIMIT_NOFILE
+// 0: every open fails with EMFILE; stat, unlink and rename still work), so
+// the CreateTemp of a rewrite and the OpenFile of an append fail.  The store
+// is made to load the file first (a Get), so that the fault hits the write.
+func (h *hist) withFault(f func()) {
+	if !h.faultNext {
+		f()
+		return
+	}
+	h.faultNext = false
+	h.get(0) // traced, so that the model loads too
+	h.t.Op("-", "fault")
+	h.t.Note("io-fault")
+	var old syscall.Rlimit
+	if err := syscall.Getrlimit(syscall.RLIMIT_NOFILE, &old); err != nil {
+		panic(err)
+	}
+	if err := syscall.Setrlimit(syscall.RLIMIT_NOFILE, &syscall.Rlimit{Cur: 0, Max: old.Max}); err != nil {
+		panic(err)
+	}
+	defer syscall.Setrlimit(syscall.RLIMIT_NOFILE, &old)
+	f()
+}
+
+// afterRefused: the monitor of every refused update, whatever the path
+// (library, HTTP, signalling) and the reason (stale tag, missing token, I/O
+// fault): the file is untouched, and what the running server honours is what
+// the file holds and what a freshly started server reads (checked by view,
+// field by field) -- i.e. the last accepted version.
+func (h *hist) afterRefused(what string, rawBefore []byte, existedFile bool) {
+	_, existsNow, _, rawNow := parseFile(h.path)
+	h.t.Checked("C16.refused_unchanged")
+	if existsNow != existedFile || !bytes.Equal(rawNow, rawBefore) {
+		h.t.Fail("C16", "refused_unchanged", fmt.Sprintf("%s was refused but the token file changed", what))
+	}
+	h.view()
+}
+
 func (h *hist) upd(rc rec, e string) string {
 	h.waitTickMaybe()
-	recs, _, _, _ := parseFile(h.path)
+	recs, existedFile, _, rawBefore := parseFile(h.path)
 	_, existed := lastWins(recs)[rc.name]
 	verBefore := h.ver
-	_, err := token.Update(rc.stateful(), e)
+	faulted := h.faultNext
+	var err error
+	h.withFault(func() { _, err = token.Update(rc.stateful(), e) })
 	c := classify(err)
 	st := h.stamp()
 	h.t.Op(c, "upd", rc.String(), h.etagArg(e), "0:0", st)
@@ -419,6 +463,8 @@ func (h *hist) upd(rc rec, e string) string {
 	if c == "ok" {
 		delete(h.revoked, rc.name)
 		h.writes++
+	} else if faulted || h.r.Chance(1, 4) {
+		h.afterRefused("Update", rawBefore, existedFile)
 	}
 	h.noteVersion()
 	return c
@@ -426,10 +472,12 @@ func (h *hist) upd(rc rec, e string) string {
 
 func (h *hist) del(name int, e string) string {
 	h.waitTickMaybe()
-	recs, _, _, _ := parseFile(h.path)
+	recs, existedFile, _, rawBefore := parseFile(h.path)
 	_, existed := lastWins(recs)[name]
 	verBefore := h.ver
-	err := token.Delete(tokNames[name], e)
+	faulted := h.faultNext
+	var err error
+	h.withFault(func() { err = token.Delete(tokNames[name], e) })
 	c := classify(err)
 	st := h.stamp()
 	h.t.Op(c, "del", name, h.etagArg(e), st)
@@ -440,6 +488,8 @@ func (h *hist) del(name int, e string) string {
 		}
 		h.revoked[name] = true
 		h.writes++
+	} else if faulted || h.r.Chance(1, 4) {
+		h.afterRefused("Delete", rawBefore, existedFile)
 	}
 	h.noteVersion()
 	return c
@@ -658,12 +708,15 @@ func (h *hist) randomOp(stale bool) {
 	name := r.Intn(len(baseNames))
 	switch r.Pick(24, 18, 12, 6, 8, 6, 9, 4, 2) {
 	case 0: // create (or an unconditional overwrite attempt)
+		h.faultNext = r.Chance(1, 12)
 		h.upd(genRec(r, name), "")
 	case 1: // edit
 		e := h.pickTag(name)
+		h.faultNext = r.Chance(1, 8)
 		h.upd(genRec(r, name), e)
 	case 2:
 		e := h.pickTag(name)
+		h.faultNext = r.Chance(1, 8)
 		h.del(name, e)
 	case 3:
 		h.expire()
@@ -1276,10 +1329,26 @@ func RunAPI(t *tr.Trace, r *tr.Rand, n int) {
 	}
 	apiH = h
 	apiCorpus(t, r, base)
+	if SigNew != nil {
+		sigSeq(t, r, base, true)
+	}
+	repoint := func() {
+		// a signalling world points the group package at its own directories
+		if _, err := APISetup(base, grpNames[1:]); err != nil {
+			panic(err)
+		}
+	}
+	repoint()
 	for i := 0; i < n; i++ {
 		switch {
 		case i%8 == 7:
 			apiRace(t, r, base)
+		case i%8 == 1 && SigNew != nil:
+			sigSeq(t, r, base, false)
+			repoint()
+		case i%8 == 4 && SigNew != nil:
+			sigRace(t, r, base)
+			repoint()
 		case i%8 == 2 || i%8 == 5 || i%8 == 6:
 			apiEditors(t, r, base, i/8*3+i%8/3)
 		default:
